@@ -74,9 +74,9 @@ func (s *codecStats) coverage(rule string, cases []*ProgCase) core.Coverage {
 		"unobservable_because":           bl,
 		"exhaustive":                     true,
 		"non_initial_buffer_evaluations": s.offEvals,
-		"non_initial_buffer_evaluations_by_target": s.offByLang,
+		"non_initial_buffer_evaluations_by_target":             s.offByLang,
 		"non_initial_buffer_commands_not_understood_by_driver": s.offSkipped,
-		"non_initial_buffers":            "every case's first 2 messages x buffers already holding {a5, 01..07, another message of the program}: encoder appends after them (C01/C04/C06), decoder starts behind them (C02); the same object encoded twice (C01); judged only where the same message is handled correctly from the initial state",
+		"non_initial_buffers":                                  "every case's first 2 messages x buffers already holding {a5, 01..07, another message of the program}: encoder appends after them (C01/C04/C06), decoder starts behind them (C02); the same object encoded twice (C01); judged only where the same message is handled correctly from the initial state",
 	}
 }
 
